@@ -26,7 +26,15 @@ use serde::{Deserialize, Serialize};
 #[derive(Component, Serialize, Deserialize, Clone, Copy)]
 struct A(u32);
 #[derive(Component, Serialize, Deserialize, Clone, Copy)]
-struct B(u32);
+struct B(u32, u64);
+/// B carries a second field derived from the first, so that its payload has several fields of different widths and a
+/// message parsed out of step shows up as a corrupt value
+fn b_of(n: u32) -> B {
+    B(n, (n as u64).wrapping_mul(0x1_0000_0001).wrapping_add(7))
+}
+fn b_str(b: &B) -> String {
+    if b_of(b.0).1 == b.1 { b.0.to_string() } else { format!("{}!corrupt", b.0) }
+}
 #[derive(Component, Serialize, Deserialize, Clone, Copy)]
 struct O(u32);
 #[derive(Component, Serialize, Deserialize, Clone, Copy, MapEntities)]
@@ -207,6 +215,8 @@ struct Cfg {
     rel: bool,
     /// `ChildOf` is replicated (component kind 5): client-side despawns are recursive over the hierarchy
     hier: bool,
+    /// initial value of `ServerTick` (a long-running server: close to the 2^32 wrap)
+    tick0: u32,
     policy: String,
     auth: String,
     track: bool,
@@ -297,7 +307,7 @@ fn insert_kind(world: &mut World, e: Entity, kind: usize, v: &Val) {
             em.insert(A(n));
         }
         1 => {
-            em.insert(B(n));
+            em.insert(b_of(n));
         }
         2 => {
             em.insert(O(n));
@@ -339,7 +349,7 @@ fn mutate_kind(world: &mut World, e: Entity, kind: usize, v: &Val) {
         }
         1 => {
             if let Some(mut c) = em.get_mut::<B>() {
-                c.0 = n;
+                *c = b_of(n);
             }
         }
         2 => {
@@ -715,7 +725,12 @@ impl Sim {
 
     fn decode_val(&self, kind: usize, data: &mut Bytes) -> Option<String> {
         match kind {
-            0 | 1 | 2 | 4 => postcard_utils::from_buf::<u32, _>(data).ok().map(vstr),
+            1 => {
+                let n: u32 = postcard_utils::from_buf(data).ok()?;
+                let m: u64 = postcard_utils::from_buf(data).ok()?;
+                Some(b_str(&B(n, m)))
+            }
+            0 | 2 | 4 => postcard_utils::from_buf::<u32, _>(data).ok().map(vstr),
             3 | 5 => {
                 let bits: u64 = postcard_utils::from_buf(data).ok()?;
                 let e = Entity::try_from_bits(bits).ok()?;
@@ -1033,7 +1048,7 @@ impl Sim {
                 cs.push(format!("0={}", a.0));
             }
             if let Some(a) = er.get::<B>() {
-                cs.push(format!("1={}", a.0));
+                cs.push(format!("1={}", b_str(a)));
             }
             if let Some(a) = er.get::<O>() {
                 cs.push(format!("2={}", a.0));
@@ -1112,7 +1127,7 @@ impl Sim {
                 cs.push(format!("0={}", a.0));
             }
             if let Some(a) = er.get::<B>() {
-                cs.push(format!("1={}", a.0));
+                cs.push(format!("1={}", b_str(a)));
             }
             if let Some(a) = er.get::<O>() {
                 cs.push(format!("2={}", a.0));
@@ -1174,7 +1189,13 @@ impl Sim {
             return;
         }
         match t[0] {
-            "start" => self.server.world_mut().resource_mut::<RepliconServer>().set_running(true),
+            "start" => {
+                if self.cfg.tick0 != 0 && self.server.world().resource::<ServerTick>().get() == 0 {
+                    let t0 = self.cfg.tick0;
+                    self.server.world_mut().resource_mut::<ServerTick>().increment_by(t0);
+                }
+                self.server.world_mut().resource_mut::<RepliconServer>().set_running(true)
+            }
             "stop" => {
                 self.server.world_mut().resource_mut::<RepliconServer>().set_running(false);
                 for c in &mut self.clients {
@@ -1354,7 +1375,7 @@ fn parse_sop(t: &[&str]) -> Option<Sop> {
 }
 
 fn parse_cfg(line: &str) -> Cfg {
-    let mut cfg = Cfg { mismatch: None, rel: false, hier: false, policy: "all".into(), auth: "none".into(), track: false, timeout_ms: 10_000, nclients: 1 };
+    let mut cfg = Cfg { mismatch: None, rel: false, hier: false, tick0: 0, policy: "all".into(), auth: "none".into(), track: false, timeout_ms: 10_000, nclients: 1 };
     for kv in line.split_whitespace().skip(1) {
         let Some((k, v)) = kv.split_once('=') else { continue };
         match k {
@@ -1365,6 +1386,7 @@ fn parse_cfg(line: &str) -> Cfg {
             "nclients" => cfg.nclients = v.parse().unwrap(),
             "rel" => cfg.rel = v == "1",
             "hier" => cfg.hier = v == "1",
+            "tick0" => cfg.tick0 = v.parse().unwrap(),
             "mismatch" => cfg.mismatch = v.parse().ok(),
             _ => {}
         }
